@@ -480,12 +480,18 @@ class Gen:
                      (f"{lo + hi} - {nam}", lo, hi),
                      (f"{nam} * {nam}", 0 if lo <= 0 <= hi else
                       min(lo * lo, hi * hi), max(lo * lo, hi * hi))]
-            if "d_i" in self.vars and "d1_i" in self.vars:
-                # names that collide with the analysis' helper symbols
-                forms.append((f"min(max({nam} + d_i + d1_i, {lit(lb)}), "
-                              f"{lit(ub)})", lb, ub))
-                forms.append((f"min(max({nam} + d_i, {lit(lb)}), "
-                              f"{lit(ub)})", lb, ub))
+            # small read-only scalars whose names collide with the helper
+            # symbols of the dependence analysis (d_<loop variable>)
+            smalls = [v for v in self.vars.values()
+                      if v.typ == "int" and not v.dims and v.role == "in"
+                      and v.rng == (0, 1) and v.name.startswith("d")]
+            for sml in smalls:
+                forms += [(f"{nam} + {sml.name}", lo, hi + 1),
+                          (f"{nam} + 2 * {sml.name}", lo, hi + 2),
+                          (f"{nam} - {sml.name}", lo - 1, hi)]
+            if len(smalls) >= 2:
+                forms.append((f"{nam} + {smalls[0].name} + {smalls[1].name}",
+                              lo, hi + 2))
             if "ia" in self.vars and lo >= 1 and hi <= 6:
                 forms.append((f"ia({nam})", 1, 6))
                 forms.append((f"ia({nam})", 1, 6))
@@ -1380,7 +1386,8 @@ def programs(draw, profile=None):
     m_var = Var("m", "int", role="in", rng=(1, 3))
     scal = [n_var, m_var, Var("k", "int"), Var("x", "real"),
             Var("y", "real"), Var("lg", "log")]
-    scal += [Var(nm, "int") for nm in prof["extra_int_scalars"]]
+    scal += [Var(nm, "int", role="in", rng=(0, 1))
+             for nm in prof["extra_int_scalars"]]
     if prof["arrays"] is None:
         nar = gen.int(2, 5)
         pool = [v for v in ARRAY_POOL
